@@ -391,6 +391,32 @@ class C12(Prop):
                 res.fail(("flat", "conforms-raises", impl.tname(e2)), repr(e2)[:200])
             if known and (not isinstance(x, str) or m != "ok"):
                 res.nontrivial = True
+        # the module-level function with ONE schema object and a different checker each time: the checker passed to a
+        # call is the one that counts for that call
+        sobj = copy.deepcopy(s)
+        js = impl.jsonschema
+        for x in case["instances"][:2]:
+            if sc is not None and self.model_for(fc, sc, name, x) == "propagate":
+                continue
+            for label, cfg in (("case-checker", fc), ("none", None), ("empty-checker", js.FormatChecker(formats=())),
+                               ("case-checker-again", fc)):
+                def oc(f):
+                    try:
+                        f()
+                        return ("ok",)
+                    except impl.exceptions.ValidationError as e:
+                        return ("ValidationError", str(e.validator), e.message)
+                    except Exception as e:
+                        return ("raises", impl.tname(e))
+                want = oc(lambda: cls(copy.deepcopy(s), format_checker=cfg).validate(copy.deepcopy(x)))
+                got = oc(lambda: js.validate(copy.deepcopy(x), sobj, cls=cls, format_checker=cfg))
+                res.evals += 1
+                if want[0] == "raises" or got[0] == "raises":
+                    continue
+                if (want[0] == "ok") != (got[0] == "ok") or (want[0] != "ok" and (want[1] == "format") != (got[1] == "format")):
+                    res.fail(("flat", "module-validate-follows-another-checker", label),
+                             "format=%r instance=%s: jsonschema.validate(..., format_checker=<%s>) -> %r, the class with "
+                             "that checker -> %r" % (name, impl.cj(x)[:80], label, got[:2], want[:2]))
         return res
 
     # -- format nested under applicators: verdict vs O-SPEC with the model as callback
